@@ -13,6 +13,8 @@ pub mod c14;
 pub mod c15;
 pub mod c16;
 pub mod c17;
+pub mod c18;
+pub mod c20;
 pub mod e2props;
 
 pub fn replay_value(path: &str) -> serde_json::Value {
@@ -72,7 +74,9 @@ pub fn dispatch(prop: &str, tier: Tier, replay: Option<String>) -> i32 {
         "C07" => e2props::c07(tier, replay),
         "C08" => c08::run_check(tier, replay),
         "C09" => e2props::c09(tier, replay),
+        "C18" => c18::run(tier, replay),
         "C19" => e2props::c19(tier, replay),
+        "C20" => c20::run(tier, replay),
         "C10" => c10::run(tier, replay),
         "C11" => c11::run(tier, replay),
         "C12" => c12::run(tier, replay),
